@@ -129,6 +129,7 @@ class ClckEngine:
 
 	# ------------------------------------------------------------------ execute -------
 	def execute(self, plan, prop, choices=None):
+		toolkit.reset()  # fresh module objects: nothing leaks from the previous run of this process
 		clck_gen = toolkit.tk("clck_gen")
 		cfg = plan["config"]
 		pol = Policy(rng=rng_for(plan["seed"], "sched"), picks=(choices or {}).get("picks") if choices else None)
